@@ -10,6 +10,7 @@ use std::str::FromStr;
 pub fn lanes() -> Vec<Lane> {
     vec![
         Lane { name: "gen", count: |c| if c.thorough() { 2_000_000 } else { 300_000 }, run: gen_lane },
+        Lane { name: "built", count: |c| if c.thorough() { 400_000 } else { 60_000 }, run: built_lane },
     ]
 }
 
@@ -36,16 +37,72 @@ fn gen_lane(ctx: &mut Ctx, idx: u64) {
     let o = ROpts { substvars: idx % 3 == 0, ws_level: (idx % 3) as u8, inner_newlines: idx % 2 == 0, ..ROpts::default() };
     let g = relgen::gen_field(&mut r, &o);
     let feat = main_feature(&g.features);
-    let has_sv = !g.substvars().is_empty();
-    let t = &g.text;
+    let want: Vec<Vec<Seen>> = g.entries().iter().map(|e| e.iter().map(expect).collect()).collect();
+    let t = g.text.clone();
+    check(ctx, &g.text, &g.features, feat, g.substvars(), want, move || {
+        let (rel, errs) = Relations::parse_relaxed(&t, true);
+        if errs.is_empty() { Ok(rel) } else { Err(errs) }
+    });
+}
+
+/// A field assembled from entry values instead of text: parsed entries, entries made of built relations, and
+/// `Entry::new()` (an empty entry, which normalisation has to drop like a written one).
+fn built_lane(ctx: &mut Ctx, _idx: u64) {
+    use debian_control::lossless::relations::{Entry, Relation};
+    let mut r = ctx.rng();
+    let o = ROpts { substvars: false, ws_level: 0, max_entries: 1, empty_entries: false, trailing_comma: false, ..ROpts::default() };
+    let n = r.range(1, 4);
+    // per entry: None = Entry::new(); Some(text, model, how)
+    let mut plan: Vec<Option<(String, Vec<Seen>, u8)>> = vec![];
+    for _ in 0..n {
+        if r.chance(1, 4) {
+            plan.push(None);
+            continue;
+        }
+        let g = loop {
+            let g = relgen::gen_field(&mut r, &o);
+            if g.entries().len() == 1 {
+                break g;
+            }
+        };
+        let model: Vec<Seen> = g.entries()[0].iter().map(expect).collect();
+        plan.push(Some((g.text.trim().to_string(), model, r.below(2) as u8)));
+    }
+    let want: Vec<Vec<Seen>> = plan.iter().flatten().map(|(_, m, _)| m.clone()).collect();
+    let desc = plan.iter().map(|p| match p { None => "Entry::new()".to_string(), Some((t, _, 0)) => format!("parse({:?})", t), Some((t, _, _)) => format!("from-relations({:?})", t) }).collect::<Vec<_>>().join(" ; ");
+    let mut feats: Vec<&'static str> = vec!["built"];
+    if plan.iter().any(|p| p.is_none()) {
+        feats.push("empty-entry-value");
+    }
+    let feat = if feats.len() > 1 { "built+empty-entry-value" } else { "built" };
+    let plan2 = plan.clone();
+    check(ctx, &desc, &feats, feat, vec![], want, move || {
+        let mut es: Vec<Entry> = vec![];
+        for p in &plan2 {
+            match p {
+                None => es.push(Entry::new()),
+                Some((t, _, 0)) => es.push(Entry::from_str(t).map_err(|e| vec![e])?),
+                Some((t, _, _)) => {
+                    let e = Entry::from_str(t).map_err(|e| vec![e])?;
+                    let rels: Vec<Relation> = e.relations().map(|x| Relation::from_str(&x.to_string()).unwrap()).collect();
+                    es.push(Entry::from(rels));
+                }
+            }
+        }
+        Ok(Relations::from(es))
+    });
+}
+
+fn check(ctx: &mut Ctx, t: &str, features: &[&'static str], feat: &str, want_substvars: Vec<String>, want: Vec<Vec<Seen>>, make: impl FnOnce() -> Result<Relations, Vec<String>> + std::panic::UnwindSafe) {
+    let has_sv = !want_substvars.is_empty();
     let fail = |ctx: &mut Ctx, kind: &str, out: &str, info: Value| {
-        ctx.violation(&format!("{}|Relations::wrap_and_sort|{}", kind, feat), json!({"input": clip(t), "output": clip(out), "features": g.features, "info": info}));
+        ctx.violation(&format!("{}|Relations::wrap_and_sort|{}", kind, feat), json!({"input": clip(t), "output": clip(out), "features": features, "info": info}));
     };
     let res = guard(t.len() * 4 + 256, || {
-        let (rel, errs) = Relations::parse_relaxed(t, true);
-        if !errs.is_empty() {
-            return Err(errs);
-        }
+        let rel = match make() {
+            Ok(r) => r,
+            Err(e) => return Err::<_, Vec<String>>(e),
+        };
         let out = rel.wrap_and_sort();
         let text = out.to_string();
         let live: Vec<Vec<Seen>> = out.entries().map(|e| e.relations().map(|x| seen_lossless(&x)).collect()).collect();
@@ -59,15 +116,34 @@ fn gen_lane(ctx: &mut Ctx, idx: u64) {
         let reread: Vec<Vec<Seen>> = re.entries().map(|e| e.relations().map(|x| seen_lossless(&x)).collect()).collect();
         let re_sv: Vec<String> = re.substvars().collect();
         let entries: Vec<_> = re.entries().collect();
-        let sorted_entries = entries.windows(2).all(|w| w[0] <= w[1]);
+        // sorted under the crate's own order: no later element is strictly smaller than an earlier one (all pairs,
+        // so that an inconsistent comparator cannot hide behind adjacent ties)
+        let all_pairs_sorted = |n: usize, lt: &dyn Fn(usize, usize) -> bool| (0..n).all(|i| (i + 1..n).all(|j| !lt(j, i)));
+        let sorted_entries = all_pairs_sorted(entries.len(), &|a, b| entries[a] < entries[b]);
         let sorted_alts = entries.iter().all(|e| {
             let rs: Vec<_> = e.relations().collect();
-            rs.windows(2).all(|w| w[0] <= w[1])
+            all_pairs_sorted(rs.len(), &|a, b| rs[a] < rs[b])
         });
         let second = if re_errs.is_empty() { Some(re.wrap_and_sort().to_string()) } else { None };
-        Ok((text, live, re_errs, reread, re_sv, sorted_entries, sorted_alts, second))
+        // canonical = independent of the order in which the same entries / alternatives were written: the output with
+        // its entries reversed, and with the alternatives of every entry reversed, must normalise to the same text
+        let mut permuted: Vec<(&'static str, String, String)> = vec![];
+        if re_errs.is_empty() && !text.is_empty() {
+            let pieces: Vec<&str> = text.split(", ").collect();
+            let rev_entries = pieces.iter().rev().cloned().collect::<Vec<_>>().join(", ");
+            let rev_alts = pieces.iter().map(|p| p.split(" | ").collect::<Vec<_>>().into_iter().rev().collect::<Vec<_>>().join(" | ")).collect::<Vec<_>>().join(", ");
+            for (what, input) in [("entries-reversed", rev_entries), ("alternatives-reversed", rev_alts)] {
+                if input != text {
+                    let (p, e) = Relations::parse_relaxed(&input, true);
+                    if e.is_empty() {
+                        permuted.push((what, input, p.wrap_and_sort().to_string()));
+                    }
+                }
+            }
+        }
+        Ok((text, live, re_errs, reread, re_sv, sorted_entries, sorted_alts, second, permuted))
     });
-    let (text, live, re_errs, reread, re_sv, sorted_entries, sorted_alts, second) = match res {
+    let (text, live, re_errs, reread, re_sv, sorted_entries, sorted_alts, second, permuted) = match res {
         Err(f) => {
             fail(ctx, &f.class(), "", f.json());
             return;
@@ -78,7 +154,7 @@ fn gen_lane(ctx: &mut Ctx, idx: u64) {
         }
         Ok(Ok(x)) => x,
     };
-    for f in &g.features {
+    for f in features {
         ctx.count(&format!("feature:{}", f));
     }
     ctx.nontrivial(t.as_bytes());
@@ -92,7 +168,7 @@ fn gen_lane(ctx: &mut Ctx, idx: u64) {
     }
     // canonical single-line text of the output's own structure (+ substvars as the crate placed them)
     let canon_entries: Vec<String> = reread.iter().map(|e| e.iter().map(canonical_rel).collect::<Vec<_>>().join(" | ")).collect();
-    let mut want_sv = g.substvars();
+    let mut want_sv = want_substvars.clone();
     want_sv.sort();
     let mut got_sv = re_sv.clone();
     got_sv.sort();
@@ -135,7 +211,6 @@ fn gen_lane(ctx: &mut Ctx, idx: u64) {
         es.sort();
         es
     };
-    let want: Vec<Vec<Seen>> = g.entries().iter().map(|e| e.iter().map(expect).collect()).collect();
     if norm(&want) != norm(&reread) {
         fail(ctx, "meaning-changed", &text, json!({"expected": seen_json(&want), "got": seen_json(&reread)}));
         return;
@@ -144,6 +219,13 @@ fn gen_lane(ctx: &mut Ctx, idx: u64) {
         fail(ctx, "not-idempotent", &text, json!({"second": second}));
         return;
     }
+    for (what, input, out) in &permuted {
+        ctx.count("permutations-checked");
+        if *out != text {
+            fail(ctx, &format!("order-dependent-output:{}", what), &text, json!({"permuted_input": clip(input), "its_output": clip(out)}));
+            return;
+        }
+    }
     ctx.count("held");
-    ctx.sample(|| json!({"input": clip(t), "output": clip(&text), "features": g.features}));
+    ctx.sample(|| json!({"input": clip(t), "output": clip(&text), "features": features}));
 }
